@@ -483,6 +483,35 @@ func (fr *Frame) havocLvalue(st *State, e *Expr) error {
 			}
 			r.havocObject(st, x, 0)
 			return nil
+		case "boxed":
+			// boxed(x, "*T"): the cell pointed to by the *T inside interface value x, if x holds a *T
+			x, err := fr.eval(st, e.Args[0], nil)
+			if err != nil {
+				return err
+			}
+			if len(e.Args) != 2 || e.Args[1].Op != "str" {
+				return fmt.Errorf("boxed(x, \"*T\") expected")
+			}
+			ev := &evaluator{fr: fr, r: r, st: st, old: fr.entry, bound: map[string]Val{}}
+			var pt types.Type
+			func() {
+				defer func() { recover() }()
+				pt = ev.resolveType(e.Args[1].Str)
+			}()
+			if pt == nil {
+				return fmt.Errorf("boxed: unknown type %s", e.Args[1].Str)
+			}
+			p := r.unbox(pt, x.S)
+			p.T = pt
+			if p.K != KPtr {
+				return nil
+			}
+			et := pt.Underlying().(*types.Pointer).Elem()
+			old := r.load(st, p)
+			nv := r.freshVal("hvbox", et, st)
+			cond := fmt.Sprintf("(= (itag %s) %d)", x.S, r.typeTag(pt))
+			r.store(st, p, r.iteVal(cond, nv, old))
+			return nil
 		case "mapof":
 			x, err := fr.eval(st, e.Args[0], nil)
 			if err != nil {
@@ -674,6 +703,7 @@ func (fr *Frame) builtin(st *State, ins ssa.Instruction, name string, c *ssa.Cal
 		return fr.appendOp(st, c, args, pos)
 	case "delete":
 		m, k := args[0], args[1]
+		fr.guardedMapAccess(st, c.Args[0], pos, "write")
 		mt := c.Args[0].Type().Underlying().(*types.Map)
 		if dk, _, _, _, ok := r.mapKeys(mt); ok && isScalar(k.K) {
 			d := r.get(st, dk)
@@ -795,7 +825,6 @@ func (fr *Frame) spawn(st *State, in *ssa.Go) {
 	for i, a := range args {
 		extra[fmt.Sprintf("arg%d", i)] = a
 	}
-	fr.atAnchors(st, in, false, extra)
 	var callee *ssa.Function
 	var binds []Val
 	switch v := c.Value.(type) {
@@ -805,6 +834,19 @@ func (fr *Frame) spawn(st *State, in *ssa.Go) {
 		cv := fr.val(st, v)
 		callee, binds = cv.Fn, cv.Bind
 	}
+	if callee != nil {
+		// captured variables of the spawned closure, by name: cap_<name> is the variable's current value
+		for i, fv := range callee.FreeVars {
+			if i < len(binds) {
+				b := binds[i]
+				b.T = fv.Type()
+				if lv := r.load(st, b); lv.K != KInvalid {
+					extra["cap_"+fv.Name()] = lv
+				}
+			}
+		}
+	}
+	fr.atAnchors(st, in, false, extra)
 	if callee != nil {
 		name = r.eng.funcName(callee)
 	}
